@@ -8,7 +8,7 @@
    (B) over a labelled transition system of the queue and of the parser shutdown handshake,
        for ALL interleavings, all queue sizes N, any number of posters, all scripts and inputs:
          C10_fifo_per_poster, C10_blocking_never_dropped, C10_input_fifo   (order, no loss)
-         C10_shutdown_completes                                            (progress + ranking)
+         C10_shutdown_completes, C10_shutdown_can_return                   (progress + ranking)
          C10_library_goroutines_end                                        (no goroutine left)
        with the refuted histories kept beside them:
          C10_suspend_then_close_refuted     finding key suspend-then-close
@@ -84,6 +84,22 @@ Theorem C10_shutdown_completes : forall (N : nat) (script : nat -> list post) (s
 Proof. exact shutdown_completes. Qed.
 Print Assumptions C10_shutdown_completes.
 
+(* ... and they DO reach the return label when the queue has room for what is still on its
+   way (events in the input pipeline, the DA1 reply's event, Close's own QuitEvent): from
+   every such reachable state a run of at most [rank s] handshake steps ends in the return
+   label. *)
+Theorem C10_shutdown_can_return : forall (N : nat) (script : nat -> list post) (s : state),
+  reachable N true script s -> in_shutdown (mp s) = true -> susp_done s = O ->
+  (List.length (q s) + List.length (pipeline s)
+   + match mp s with MPostQuit => 2 | MSendClose _ | MWriteDA1 _ => 1 | _ => 0 end <= N)%nat ->
+  exists tr s', forallb handshake tr = true /\ run N true tr s = Some s' /\ returned (mp s') = true
+                /\ (List.length tr <= rank s)%nat.
+Proof.
+  intros N script s Hr Hsh Hsd Hroom. apply (shutdown_can_return N script s Hr Hsh Hsd).
+  unfold room, pending_main. destruct (mp s); simpl in *; exact Hroom.
+Qed.
+Print Assumptions C10_shutdown_can_return.
+
 (* When Close/Suspend has returned the parser goroutine has ended; the input goroutine has
    ended or can take its next step towards EOF, unless the queue is full. *)
 Theorem C10_library_goroutines_end : forall (N : nat) (ans : bool) (script : nat -> list post) (s : state),
@@ -147,7 +163,7 @@ Proof. intros fn a b H1 H2 H3 H4 H5 H6. apply pair_ok_spec. exact (lockset_ok_fu
 Print Assumptions C10_lockset_ok.
 
 (* Without the signal/panic path (Options.NoSignals and no panic inside the input goroutine
-   or a spinner: no call of Close from inside the library) only four fields remain:
+   or a spinner: no call of Close from the input goroutine, no sigclose role) only four fields remain:
      Vaxis.parser, Vaxis.tw       written by openTty in Resume while a previous input
                                   goroutine / a Query* caller may still read them
      Vaxis.pastePending           read and written without a lock by the input goroutine, of
@@ -198,11 +214,12 @@ Definition ex_script : nat -> list post := script_of [[(true, 10); (false, 11); 
 
 (* a reachable state inside Close with susp_done = 0 and input pending; Close then returns *)
 Example C10_shutdown_example :
-  exists s, run 2 true [LType [[7]]; LPost 0; LCallClose; LMain] (init ex_script) = Some s
+  exists s, run 4 true [LType [[7]]; LPost 0; LCallClose; LMain] (init ex_script) = Some s
             /\ in_shutdown (mp s) = true /\ susp_done s = O
-            /\ fst (exec 2 true [AType [7]; APost 0; AClose] (None, init ex_script))
+            /\ (List.length (q s) + List.length (pipeline s) + 1 <= 4)%nat
+            /\ fst (exec 4 true [AType [7]; APost 0; AClose] (None, init ex_script))
                = [(true, None); (true, None); (true, None)].
-Proof. eexists. split; [vm_compute; reflexivity|]. vm_compute. auto. Qed.
+Proof. eexists. split; [vm_compute; reflexivity|]. vm_compute. repeat split; auto. Qed.
 
 (* a reachable suspended state: the hypothesis of the refutation is satisfiable, and the
    runner reports the hang *)
